@@ -67,6 +67,11 @@ def handleOpt (op : String) (j : Json) : Option Json :=
       | _, _ => some (err "jugfile-or-jugdir-not-a-string")
   | "expand" =>
     some <| jOpt Json.str (expandJugdir (getStr j "template") (getStr j "jugfile") (getStr j "date"))
+  | "storefor" =>
+    let ov := match j.getObjVal? "override" with
+      | .ok (.str s) => some s
+      | _ => none
+    some <| jOpt Json.str (storeFor ov (getStr j "template") (getStr j "jugfile") (getStr j "date"))
   | _ => none
 
 end Jug.Drv
